@@ -9,6 +9,8 @@ def run(chk):
     resizefill.run(chk)
     from lib import danglink
     danglink.run(chk)
+    from lib import forwarders
+    forwarders.run(chk)
     return chk.finish(
         level="other",
         explanation=("Decides one structural clause of C18 on /repo's current source: in String::_op_vformat() and Arena::sformat() the value "
